@@ -10,7 +10,9 @@
 
   Where the code that exists deviates from the property the full statement is kept in the comment, the
   theorem is named `…_partial` with the exact extra hypothesis, and a `…_witness` theorem shows that the
-  modelled current code really deviates outside it (DESIGN §5: F-C19g/h/i and the new F-C19m/n/s).
+  modelled current code really deviates outside it (remaining: F-C19h, F-C19i).  The defects F-C19g / F-C19m /
+  F-C19n / F-C19s are repaired in the library (0fcdb58, cb56bb9, 7977ad0, f283aa2): the model mirrors the repaired
+  code, the former `_partial` theorems are now unconditional, and each repair keeps a `…_refused` regression fact.
 -/
 import BioCantor.Proofs.ValBasics
 import BioCantor.Proofs.ValCompound
@@ -36,25 +38,20 @@ theorem single_spec (s e : Int) (st : Strand) (plen : Option Nat) :
 
 /-! ### CompoundInterval -/
 
-/-- T2 (partial).  Full statement: `∀ starts ends st plen, okMkCompound starts ends st plen (out …) = true`
-    (refused ⇔ unequal/empty lists, a start > end, a negative start, or an end beyond the parent sequence; built ⇒
-    blocks are a sorted permutation of the given pairs, all valid).  FAILS for negative starts (F-C19g): the
-    constructor never compares a coordinate with 0.  Proved for non-negative starts. -/
-theorem compound_spec_partial (starts ends : List Int) (st : Strand) (plen : Option Nat)
-    (hnn : ∀ b ∈ starts.zip ends, 0 ≤ b.1) :
+/-- T2 `CompoundInterval(starts, ends, strand, parent)`, ALL arguments: refused ⇔ unequal/empty lists, a start > end,
+    a negative start, or an end beyond the parent sequence; built ⇒ the blocks are a sorted permutation of the given
+    pairs, all valid.  (Unconditional since 0fcdb58; before, negative starts in ≥ 2 blocks were accepted: F-C19g.) -/
+theorem compound_spec (starts ends : List Int) (st : Strand) (plen : Option Nat) :
     okMkCompound starts ends st plen (outOf id (mkCompoundRaw starts ends st plen)) = true :=
-  mkCompoundRaw_spec_partial starts ends st plen hnn
+  mkCompoundRaw_spec starts ends st plen
 
-example : ∀ b ∈ [0, 5, 5].zip [3, 5, 9], (0 : Int) ≤ b.1 := by decide
+/-- regression fact for F-C19g: `CompoundInterval([-2,5],[3,7],+)` is refused with a documented class -/
+theorem compound_negative_start_refused :
+    ∃ k, mkCompoundRaw [-2, 5] [3, 7] .plus none = .error (.doc k) :=
+  mkCompoundRaw_negative_refused
 
-/-- F-C19g witness: `CompoundInterval([-2,5],[3,7],+)` IS built, with the block `(-2, 3)`. -/
-theorem compound_negative_start_witness :
-    mkCompoundRaw [-2, 5] [3, 7] .plus none = .ok [(-2, 3), (5, 7)] ∧
-    okMkCompound [-2, 5] [3, 7] .plus none (.ok [(-2, 3), (5, 7)]) = false :=
-  ⟨mkCompoundRaw_negative_witness, by decide⟩
-
-/-- T2' for ALL inputs (negative coordinates included): the constructor accepts exactly the as-coded condition
-    (equal non-zero lengths, every start ≤ end, every end within the parent sequence), answers the stable sort of
+/-- T2' for ALL inputs: the constructor accepts exactly the as-coded condition
+    (equal non-zero lengths, every 0 ≤ start ≤ end, every end within the parent sequence), answers the stable sort of
     the pairs, and otherwise raises a documented class — never an internal error. -/
 theorem compound_exact (starts ends : List Int) (st : Strand) (plen : Option Nat) :
     (acceptedCompound starts ends plen → mkCompoundRaw starts ends st plen = .ok (sortBlocksI st (starts.zip ends))) ∧
@@ -87,36 +84,31 @@ theorem alphabet_strip_is_membership (alph data : List Char) :
     alphabetOk alph data = data.all (fun c => alph.contains (upperAscii c)) :=
   alphabetOk_eq alph data
 
-/-- T4 (partial).  Full statement: `∀ alph data ploc, okMkSeq alph data ploc (out …) = true` (refused ⇔ a letter
-    outside the alphabet or a length different from the parent location's).  FAILS when the parent location has
-    length 0 (F-C19s: a zero-length location is falsy, the comparison is skipped).  Proved otherwise. -/
-theorem sequence_spec_partial (alph data : List Char) (ploc : Option (Option Nat))
-    (h0 : ploc = some (some 0) → data = []) :
+/-- T4 `Sequence(data, alphabet, parent)`, ALL arguments: refused ⇔ a letter outside the alphabet or a length different
+    from the parent location's.  (Unconditional since f283aa2; before, a zero-length parent location was not
+    compared: F-C19s.) -/
+theorem sequence_spec (alph data : List Char) (ploc : Option (Option Nat)) :
     okMkSeq alph data ploc (outOf id (mkSeq alph data ploc)) = true :=
-  mkSeq_spec_partial alph data ploc h0
+  mkSeq_spec alph data ploc
 
-example : (some (some 4) : Option (Option Nat)) = some (some 0) → ['A', 'C', 'G', 'T'] = ([] : List Char) := by
-  intro h; cases h
-
-/-- F-C19s witness -/
-theorem sequence_zero_length_location_witness :
-    mkSeq ['A', 'C', 'G', 'T'] ['A', 'C', 'G', 'T'] (some (some 0)) = .ok 4 ∧
-    okMkSeq ['A', 'C', 'G', 'T'] ['A', 'C', 'G', 'T'] (some (some 0)) (.ok 4) = false :=
-  ⟨mkSeq_zero_length_location_witness, by decide⟩
+/-- regression fact for F-C19s -/
+theorem sequence_zero_length_location_refused :
+    mkSeq ['A', 'C', 'G', 'T'] ['A', 'C', 'G', 'T'] (some (some 0)) = .error (.doc .MismatchedParent) :=
+  mkSeq_zero_length_location_refused
 
 /-! ### CDSInterval -/
 
 /-- T5 (partial).  Full statement: `∀ starts ends st fps, okMkCDS starts ends (fps.map fpv) (out …) = true` (refused
     ⇔ unequal / empty lists, a bad block, a wrong number of frames, an empty CDS, frames mixed with phases; built ⇒
-    start = smallest start, end = largest end, phases converted).  FAILS for negative starts in ≥ 2 blocks
-    (F-C19g) and for lists not in ascending order (F-C19i: start/end are the first start / last end as given).
-    Proved for non-negative starts in ascending order. -/
+    start = smallest start, end = largest end, phases converted).  FAILS for lists not in ascending order (F-C19i:
+    start/end are the first start / last end as given).  Proved for lists in ascending order (negative starts are
+    refused since 0fcdb58, so that hypothesis is gone). -/
 theorem cds_spec_partial (starts ends : List Int) (st : Strand) (fps : List FP)
-    (hnn : ∀ b ∈ starts.zip ends, 0 ≤ b.1) (hasc : ascending (starts.zip ends) = true) :
+    (hasc : ascending (starts.zip ends) = true) :
     okMkCDS starts ends (fps.map fpv) (outOf projCDS (mkCDS starts ends st fps)) = true :=
-  mkCDS_spec_partial starts ends st fps hnn hasc
+  mkCDS_spec_partial starts ends st fps hasc
 
-example : (∀ b ∈ [0, 12].zip [9, 21], (0 : Int) ≤ b.1) ∧ ascending ([0, 12].zip [9, 21]) = true := by decide
+example : ascending ([0, 12].zip [9, 21]) = true := by decide
 
 /-- for ALL inputs: a CDS constructor call ends in an object or in a documented class -/
 theorem cds_never_internal (starts ends : List Int) (st : Strand) (fps : List FP) :
@@ -128,30 +120,31 @@ theorem cds_never_internal (starts ends : List Int) (st : Strand) (fps : List FP
 /-- T6 (partial).  Full statement: `∀ exS exE st cdsS cdsE cdsF, okMkTx exS exE cdsS cdsE (specF cdsF) (out …) = true`
     (refused ⇔ invalid exon lists, only one of cds_starts/cds_ends, an invalid CDS, or a CDS block not covered by the
     exons; built ⇒ start/end are the smallest start / largest end of the exons and of the CDS).  FAILS outside the
-    hypotheses: negative starts (F-C19g), lists not ascending (F-C19i), a CDS inside the exon span but partly in an
-    intron (F-C19h: only the outer bounds are compared), empty CDS lists (F-C19m: IndexError). -/
+    hypotheses: lists not ascending (F-C19i), a CDS inside the exon span but partly in an intron (F-C19h: only the outer
+    bounds are compared).  (Negative starts and empty CDS lists are refused since 0fcdb58 / cb56bb9: those two
+    hypotheses are gone.) -/
 theorem transcript_spec_partial (exS exE : List Int) (st : Strand) (cdsS cdsE : Option (List Int))
     (cdsF : Option (List CDSFrame))
-    (hnn : ∀ b ∈ exS.zip exE, 0 ≤ b.1) (hasc : ascending (exS.zip exE) = true)
-    (H : CdsHyp exS exE cdsS cdsE) :
+    (hasc : ascending (exS.zip exE) = true) (H : CdsHyp exS exE cdsS cdsE) :
     okMkTx exS exE cdsS cdsE (specF cdsF) (outOf projTx (mkTx exS exE st cdsS cdsE cdsF)) = true :=
-  mkTx_spec_partial exS exE st cdsS cdsE cdsF hnn hasc H
+  mkTx_spec_partial exS exE st cdsS cdsE cdsF hasc H
 
 /-- the hypotheses are satisfiable by a two-exon coding transcript (exons [5,10) [15,20), CDS [7,10) [15,18)) -/
-example : (∀ b ∈ [5, 15].zip [10, 20], (0 : Int) ≤ b.1) ∧ ascending ([5, 15].zip [10, 20]) = true ∧
-    CdsHyp [5, 15] [10, 20] (some [7, 15]) (some [10, 18]) := by
-  refine ⟨by decide, by decide, ⟨by decide, ?_, ?_, ?_⟩⟩
-  · intro cs ce h1 h2; cases h1; cases h2; decide
+example : ascending ([5, 15].zip [10, 20]) = true ∧ CdsHyp [5, 15] [10, 20] (some [7, 15]) (some [10, 18]) := by
+  refine ⟨by decide, ⟨?_, ?_⟩⟩
   · intro cs ce h1 h2; cases h1; cases h2; decide
   · intro cs ce c0 cN x0 xN h1 h2 _ _ _ _ _ _; cases h1; cases h2; decide
 
-/-- T6' for ALL inputs: the constructor ends in an internal error EXACTLY when the exon lists are accepted and both
-    CDS lists are empty (F-C19m, `cds_starts[0]`); in every other case it returns an object or a documented class. -/
-theorem transcript_internal_iff (exS exE : List Int) (st : Strand) (cdsS cdsE : Option (List Int))
-    (cdsF : Option (List CDSFrame)) :
-    (∃ c, mkTx exS exE st cdsS cdsE cdsF = .error (.internal c)) ↔
-      (acceptedInit exS exE ∧ cdsS = some [] ∧ cdsE = some []) :=
-  mkTx_internal_iff exS exE st cdsS cdsE cdsF
+/-- T6' for ALL arguments the constructor ends in an object or a documented class (before cb56bb9: IndexError exactly
+    when the exon lists were accepted and both CDS lists were empty, F-C19m) -/
+theorem transcript_never_internal (exS exE : List Int) (st : Strand) (cdsS cdsE : Option (List Int))
+    (cdsF : Option (List CDSFrame)) : NoInternal (mkTx exS exE st cdsS cdsE cdsF) :=
+  mkTx_noInternal exS exE st cdsS cdsE cdsF
+
+/-- regression fact for F-C19m: `TranscriptInterval([1],[5],+,cds_starts=[],cds_ends=[],cds_frames=[])` -/
+theorem transcript_empty_cds_refused :
+    mkTx [1] [5] .plus (some []) (some []) (some []) = .error (.doc .InvalidCDSInterval) :=
+  mkTx_empty_cds_refused
 
 /-- F-C19h witness: exons [5,10) [15,20), CDS [7,13) is accepted although the CDS is not covered by the exons. -/
 theorem transcript_cds_in_intron_witness :
@@ -167,20 +160,17 @@ theorem transcript_unsorted_witness :
 
 /-! ### VariantIntervalCollection -/
 
-/-- T7 (partial).  Full statement: `∀ raw, okMkVarColl raw (out …) = true` (refused ⇔ empty list, a variant window
-    that is empty / reversed / negative, or two overlapping variants; built ⇒ bounds = smallest start, largest end).
-    FAILS for the empty list (F-C19n: `min()` of an empty sequence, a builtin ValueError).  Proved for non-empty lists:
-    in particular the check of ADJACENT pairs of the start-sorted list finds every overlapping pair. -/
-theorem variant_collection_spec_partial (raw : List (Int × Int)) (hne : raw ≠ []) :
+/-- T7 `VariantIntervalCollection([VariantInterval(s, e), …])`, ALL lists: refused ⇔ empty list, a variant window that is
+    empty / reversed / negative, or two overlapping variants; built ⇒ bounds = smallest start, largest end.  In
+    particular the check of ADJACENT pairs of the start-sorted list finds every overlapping pair.  (Unconditional
+    since 7977ad0; before, the empty list ended in a builtin ValueError: F-C19n.) -/
+theorem variant_collection_spec (raw : List (Int × Int)) :
     okMkVarColl raw (outOf projVar (mkVarColl raw)) = true :=
-  mkVarColl_spec_partial raw hne
+  mkVarColl_spec raw
 
-example : ([(3, 4), (1, 2)] : List (Int × Int)) ≠ [] := by decide
-
-/-- T7' for ALL lists: internal error exactly for the empty list -/
-theorem variant_collection_internal_iff (raw : List (Int × Int)) :
-    (∃ c, mkVarColl raw = .error (.internal c)) ↔ raw = [] :=
-  mkVarColl_internal_iff raw
+/-- regression fact for F-C19n -/
+theorem variant_collection_empty_refused : mkVarColl [] = .error (.doc .InvalidAnnotation) :=
+  mkVarColl_empty_refused
 
 /-! ### Location.scan_windows -/
 
@@ -201,16 +191,18 @@ example : Proofs.WF (.compound ⟨[(0, 3), (5, 8)], .minus⟩) := by decide
 
 /-! ### never an internal error, for ALL arguments -/
 
-/-- T9 the modelled constructors other than TranscriptInterval / VariantIntervalCollection (characterised exactly
-    above) end in an object or a documented class for every argument value. -/
+/-- T9 every modelled constructor ends in an object or a documented class, for every argument value. -/
 theorem never_internal :
     (∀ s e st plen, NoInternal (mkSingleP s e st plen)) ∧
     (∀ starts ends st plen, NoInternal (mkCompoundRaw starts ends st plen)) ∧
     (∀ a, NoInternal (mkParent a)) ∧
     (∀ alph data ploc, NoInternal (mkSeq alph data ploc)) ∧
     (∀ starts ends st fps, NoInternal (mkCDS starts ends st fps)) ∧
+    (∀ exS exE st cdsS cdsE cdsF, NoInternal (mkTx exS exE st cdsS cdsE cdsF)) ∧
+    (∀ raw, NoInternal (mkVarColl raw)) ∧
     (∀ l w step sp, NoInternal (scanWinCount l w step sp)) := by
-  refine ⟨?_, mkCompoundRaw_noInternal, mkParent_noInternal, mkSeq_noInternal, mkCDS_noInternal, scanWinCount_noInternal⟩
+  refine ⟨?_, mkCompoundRaw_noInternal, mkParent_noInternal, mkSeq_noInternal, mkCDS_noInternal, mkTx_noInternal,
+    mkVarColl_noInternal, scanWinCount_noInternal⟩
   intro s e st plen c h
   have := mkSingleP_spec s e st plen
   rw [h] at this
